@@ -16,13 +16,15 @@ func init() {
 		Trusted: []string{"route.Parse is the parser NewTable uses (same function)", "hashicorp/consul/api field contents are arbitrary strings"},
 		Mutants: []mutant{
 			{Name: "validator bypassed", File: "registry/consul/routecmd.go", Old: "\t\t\tif !validRouteAdd(cfg) {", New: "\t\t\tif false && !validRouteAdd(cfg) {", Expect: "C14.T1"},
-			{Name: "validator accepts several commands", File: "registry/consul/routecmd.go", Old: "return err == nil && len(defs) == 1 && defs[0].Cmd == route.RouteAddCmd", New: "return err == nil && len(defs) >= 1 && defs[0].Cmd == route.RouteAddCmd", Expect: "C14.T1"},
-			{Name: "validator ignores the parse error", File: "registry/consul/routecmd.go", Old: "return err == nil && len(defs) == 1 && defs[0].Cmd == route.RouteAddCmd", New: "return (err == nil || err != nil) && len(defs) == 1 && defs[0].Cmd == route.RouteAddCmd", Expect: "C14.T1"},
+			{Name: "validator accepts several commands", File: "registry/consul/routecmd.go", Old: "if err != nil || len(defs) != 1 || defs[0].Cmd != route.RouteAddCmd {", New: "if err != nil || len(defs) < 1 || defs[0].Cmd != route.RouteAddCmd {", Expect: "C14.T1"},
+			{Name: "validator ignores the parse error", File: "registry/consul/routecmd.go", Old: "if err != nil || len(defs) != 1 || defs[0].Cmd != route.RouteAddCmd {", New: "if len(defs) != 1 || defs[0].Cmd != route.RouteAddCmd {", Expect: "C14.T1"},
 			{Name: "validated string differs from the appended one", File: "registry/consul/routecmd.go", Old: "\t\t\tconfig = append(config, cfg)\n", New: "\t\t\tconfig = append(config, cfg+\" # \"+name)\n", Expect: "C14.T1"},
 			{Name: "strconv.Quote again", File: "registry/consul/routecmd.go", Old: "cfg += \" opts \\\"\" + strings.Join(ropts, \" \") + \"\\\"\"", New: "cfg += \" opts \" + strconv.Quote(strings.Join(ropts, \" \"))", Expect: "C14.Q1"},
 			{Name: "one failing catalog call empties everything", File: "registry/consul/service.go", Old: "\tvar config []string\n\tfor i := 0; i < len(m); i++ {\n\t\tcfg := <-cfgs\n\t\tconfig = append(config, cfg...)\n\t}", New: "\tvar config []string\n\tfor i := 0; i < len(m); i++ {\n\t\tcfg := <-cfgs\n\t\tif cfg == nil {\n\t\t\treturn \"\"\n\t\t}\n\t\tconfig = append(config, cfg...)\n\t}", Expect: "C14.I1"},
 			{Name: "goroutine sends nothing on failure", File: "registry/consul/service.go", Old: "\t\t\tcfgs <- w.serviceConfig(name, passing)\n", New: "\t\t\tif c := w.serviceConfig(name, passing); c != nil {\n\t\t\t\tcfgs <- c\n\t\t\t}\n", Expect: "C14.I1"},
 			{Name: "destination from the node address only", File: "registry/consul/routecmd.go", Old: "name, addr, port := r.svc.ServiceName, r.svc.ServiceAddress, r.svc.ServicePort", New: "name, addr, port := r.svc.ServiceName, r.svc.Address, r.svc.ServicePort", Expect: "C14.N1"},
+			{Name: "destination hoisted out of the per-tag loop", File: "registry/consul/routecmd.go", Old: "\tfor _, tag := range routetags {\n\t\tif route, opts, ok := parseURLPrefixTag(tag, r.prefix, r.env); ok {\n\t\t\tname, addr, port := r.svc.ServiceName, r.svc.ServiceAddress, r.svc.ServicePort\n\n\t\t\t// use consul node address if service address is not set\n\t\t\tif addr == \"\" {\n\t\t\t\taddr = r.svc.Address\n\t\t\t}\n\n\t\t\t// add .local suffix on OSX for simple host names w/o domain\n\t\t\tif runtime.GOOS == \"darwin\" && !strings.Contains(addr, \".\") && !strings.HasSuffix(addr, \".local\") {\n\t\t\t\taddr += \".local\"\n\t\t\t}\n\n\t\t\taddr = net.JoinHostPort(addr, strconv.Itoa(port))\n\t\t\t//tags := strings.Join(r.tags, \",\")\n\t\t\tdst := \"http://\" + addr + \"/\"\n", New: "\tname, addr, port := r.svc.ServiceName, r.svc.ServiceAddress, r.svc.ServicePort\n\tif addr == \"\" {\n\t\taddr = r.svc.Address\n\t}\n\tif runtime.GOOS == \"darwin\" && !strings.Contains(addr, \".\") && !strings.HasSuffix(addr, \".local\") {\n\t\taddr += \".local\"\n\t}\n\taddr = net.JoinHostPort(addr, strconv.Itoa(port))\n\tdst := \"http://\" + addr + \"/\"\n\tfor _, tag := range routetags {\n\t\tif route, opts, ok := parseURLPrefixTag(tag, r.prefix, r.env); ok {\n", Expect: "C14.N1"},
+			{Name: "validator without the table builder", File: "registry/consul/routecmd.go", Old: "\t_, err = route.NewTable(bytes.NewBufferString(cmd))\n\treturn err == nil", New: "\treturn true", Expect: "C14.T1"},
 			{Name: "non-finite weights accepted by the parser", File: "route/parse_new.go", Old: "if err != nil || math.IsNaN(f) || math.IsInf(f, 0) {", New: "if err != nil || (f < 0 && (math.IsNaN(f) || math.IsInf(f, 0))) {", Expect: "C14.P4"},
 			{Name: "benign: validator result in a local", File: "registry/consul/routecmd.go", Old: "\t\t\tif !validRouteAdd(cfg) {", New: "\t\t\tvalid := validRouteAdd(cfg)\n\t\t\tif !valid {", Expect: ""},
 		},
@@ -92,7 +94,7 @@ func isSingleAddValidator(c *Ctx, f *ssa.Function) (bool, string) {
 			if nn, ok := nilFact(ft, isErr); ok && !nn {
 				errNil = true
 			}
-			if b, ok := ft.Cond.(*ssa.BinOp); ok && b.Op == token.EQL && ft.Truth {
+			if b, ok := ft.Cond.(*ssa.BinOp); ok && ((b.Op == token.EQL && ft.Truth) || (b.Op == token.NEQ && !ft.Truth)) {
 				if lc, ok := b.X.(*ssa.Call); ok && calleeName(&lc.Call) == "builtin.len" && isDefs(lc.Call.Args[0]) {
 					if k, ok := constInt(b.Y); ok && k == 1 {
 						one = true
@@ -132,7 +134,58 @@ func isSingleAddValidator(c *Ctx, f *ssa.Function) (bool, string) {
 		}
 		checkEdge(r.Results[0], r.Block())
 	})
-	return okAll && n > 0, why
+	if !(okAll && n > 0) {
+		return false, why
+	}
+	// the table builder must accept it too (addRoute rejects invalid glob paths and target URLs):
+	// every true verdict is under `NewTable(cmd) err == nil`
+	nt := c.fn("route", "NewTable")
+	var ntc *ssa.Call
+	eachInstr(f, func(i ssa.Instruction) {
+		if call, ok := i.(*ssa.Call); ok && call.Call.StaticCallee() == nt {
+			ntc = call
+		}
+	})
+	if ntc == nil || !derives(ntc.Call.Args[0], func(v ssa.Value) bool { return v == f.Params[0] }) {
+		return false, "the command is not applied to an empty table (route.NewTable): a path that is not a valid glob or a target that is not a valid URL passes the parser but fails every later table build"
+	}
+	isNTErr := func(v ssa.Value) bool { e, ok := v.(*ssa.Extract); return ok && e.Tuple == ntc && e.Index == 1 }
+	okNT := true
+	eachInstr(f, func(i ssa.Instruction) {
+		r, ok := i.(*ssa.Return)
+		if !ok {
+			return
+		}
+		check := func(val ssa.Value, blk *ssa.BasicBlock) {
+			if bv, isK := constBool(val); isK && !bv {
+				return
+			}
+			fs := factsAt(blk)
+			if b, ok := val.(*ssa.BinOp); ok {
+				fs = append(fs, Fact{b, true})
+			}
+			good := false
+			for _, ft := range fs {
+				if nn, ok := nilFact(ft, isNTErr); ok && !nn {
+					good = true
+				}
+			}
+			if !good {
+				okNT = false
+			}
+		}
+		if phi, isPhi := r.Results[0].(*ssa.Phi); isPhi {
+			for k, e := range phi.Edges {
+				check(e, phi.Block().Preds[k])
+			}
+			return
+		}
+		check(r.Results[0], r.Block())
+	})
+	if !okNT {
+		return false, "a true verdict does not require route.NewTable to accept the command"
+	}
+	return true, ""
 }
 
 func runC14T1(c *Ctx, build *ssa.Function) {
@@ -371,6 +424,35 @@ func runC14N1(c *Ctx, build *ssa.Function) {
 		okAddr = fb
 	}
 	okPort := hasField(join.Call.Args[1], "ServicePort")
+	// the destination is computed afresh for every routing tag: the value pasted into the command must not be
+	// carried over from the previous tag (an earlier tag's proto=/redirect= destination would leak into later ones)
+	var outer *loop
+	for _, l := range loopsOf(build) {
+		if l.Body[join.Block()] && (outer == nil || len(l.Body) > len(outer.Body)) {
+			outer = l
+		}
+	}
+	carried := outer == nil
+	if outer != nil {
+		eachInstr(build, func(i ssa.Instruction) {
+			b, ok := i.(*ssa.BinOp)
+			if !ok || b.Op != token.ADD {
+				return
+			}
+			// "route add " + name + " " + route + " " + dst : find concatenations whose left part contains the literal
+			if !derives(b.X, func(v ssa.Value) bool { s, ok := constString(v); return ok && strings.HasPrefix(s, "route add") }) {
+				return
+			}
+			if derives(b.Y, func(v ssa.Value) bool {
+				phi, ok := v.(*ssa.Phi)
+				return ok && phi.Block() == outer.Head
+			}) {
+				carried = true
+			}
+		})
+	}
+	c.check("C14.N1", "(registry/consul.routecmd).build|destination computed per routing tag", join.Pos(), !carried,
+		"the destination of a route command must be built inside the iteration for its own routing tag; a destination initialised once before the loop is overwritten by an earlier tag's proto=/redirect= option and leaks into the commands of later tags (valid syntax, wrong target)")
 	c.check("C14.N1", "(registry/consul.routecmd).build|destination is the service address (node address as fallback) and the service port", join.Pos(), okAddr && okPort,
 		"the route must point at the registered instance: ServiceAddress, falling back to the node's Address only when it is empty, joined with ServicePort")
 	// proto table
